@@ -59,3 +59,14 @@ Print Assumptions c16_dominance_preserved.
 Theorem c16_pivots_nonzero : forall n (A : rmat), cdd n 0 A -> forall k, (k < n)%nat -> (gelim k A k k <> 0)%R.
 Proof. exact diag_dominant_pivots_nonzero. Qed.
 Print Assumptions c16_pivots_nonzero.
+
+(* ... and for every ROW diagonally dominant matrix (one elimination step commutes with transposition).  Here the diagonal
+   need not be the largest entry of its column (rdd_not_column_max): it is the pivot rule's diagonal preference at threshold 0,
+   not the magnitude test, that keeps perm_r = perm_c on such inputs (generator "rowdom" of the check) *)
+Theorem c16_row_dominance_preserved : forall n k (A : rmat), (k < n)%nat -> rdd n k A -> rdd n (S k) (gstep k A).
+Proof. exact gstep_rdd. Qed.
+Print Assumptions c16_row_dominance_preserved.
+
+Theorem c16_row_dominant_pivots_nonzero : forall n (A : rmat), rdd n 0 A -> forall k, (k < n)%nat -> (gelim k A k k <> 0)%R.
+Proof. exact row_dominant_pivots_nonzero. Qed.
+Print Assumptions c16_row_dominant_pivots_nonzero.
